@@ -1,5 +1,5 @@
 /- driver for C07: Float instantiation of Model/Config.lean (`cfg`) and of the DE2 step with an evaluation order
-   (`de2map`, on top of the shared solver driver) -/
+   (`de2map`, on top of the shared solver driver), and the control logic of an ensemble's mapped member calls (`ensctl`) -/
 import MysticVerif.Basic.Proto
 import MysticVerif.Model.Config
 import MysticVerif.Model.Schedule
@@ -231,9 +231,37 @@ def handleDE2 (args : List Val) : String := Id.run do
     outs := outs.push (SolverDrv.showDE s)
   return s!"ok steps=({" ".intercalate outs.toList}) log={SolverDrv.pPairs s.log} hist={pFs (s.stepLog.map Prod.snd)}"
 
+/-! ### `ensctl (n (n0 n1 ..)) (calls (step solve ..)) (fuel F)`: the control logic of the ensemble's mapped member calls
+    (`mStep` / `mSolve` / `toggled` of Model/Schedule.lean).  Member `i` is a fresh nested solver (not live, no step
+    record) whose termination verdict turns true after `n_i` iterations - the ORACLE taken from the run-to-completion
+    run; the model predicts, for every ensemble `_Step` (`step`) / run-to-completion `_Solve` (`solve`) of the sequence,
+    how often each member has decorated its objective and iterated so far, its `_live` flag and its verdict, and whether
+    the ensemble's `Terminated()` (every member terminated) holds after the call. -/
+
+/-- state = (iterations done, iterations after which `Terminated()` holds); a decoration does not change the verdict -/
+def ctlAlg : MAlg (Nat × Nat) :=
+  { dec := id, iter := fun s => (s.1 + 1, s.2), fin := id, term := fun s => decide (s.2 ≤ s.1),
+    started := fun s => decide (0 < s.1) }
+
+def handleEnsCtl (args : List Val) : String := Id.run do
+  let some ns := (kw? args "n").bind Val.asNats? | return "bad-op"
+  let some calls := (kw? args "calls").bind Val.asList? |>.bind (·.mapM Val.asSym?) | return "bad-op"
+  let fuel := ((kw? args "fuel").bind Val.asNat?).getD 100000
+  let mut ms : List (Mem (Nat × Nat)) := ns.map fun n => { st := (0, n), live := false }
+  let mut outs : Array String := #[]
+  let mut alls : Array String := #[]
+  for c in calls do
+    if c == "step" then ms := ensStepL ctlAlg ms
+    else if c == "solve" then ms := ensSolveL ctlAlg fuel ms
+    else return "bad-op"
+    outs := outs.push (pL (ms.map fun m => s!"({m.ndec} {m.niter} {pB m.live} {pB (ctlAlg.term m.st)})"))
+    alls := alls.push (pB (allTerm ctlAlg ms))
+  return s!"ok calls={pL outs.toList} all={pL alls.toList}"
+
 def handle : Handler
   | .sym "cfg" :: args => handleCfg args
   | .sym "de2map" :: args => handleDE2 args
+  | .sym "ensctl" :: args => handleEnsCtl args
   | _ => "bad-op"
 
 end MysticVerif.DrvC07
